@@ -1,6 +1,6 @@
 (* Properties/C02.v — The loader is total.
    Model: Xml/Lexer.v, Xml/Parser.v.  Proofs: Xml/LexerProofs.v, Xml/ParserProofs.v. *)
-From AV Require Import Base.Bytes Base.Outcome Hash.HashModel Spec.SpecOps Xml.Lexer Xml.Parser Xml.LexerProofs Xml.TablesOk Xml.ParserProofs Xml.ParserCheck.
+From AV Require Import Base.Bytes Base.Outcome Hash.HashModel Spec.SpecOps Xml.Lexer Xml.Parser Xml.LexerProofs Xml.TablesOk Xml.ParserProofs Xml.ParserCheck Xml.ParserDepth.
 
 (* [U] the attribute scan of the xml header never panics (fix d17bf18) *)
 Theorem C02_header_attrs_total :
@@ -79,3 +79,30 @@ Theorem C02_check_accepts :
   load strict T tab_el tab_at tab_en check_fn float_parse bs = Val (Ret t st) ->
   check_arxml_header false T tab_el tab_at tab_en check_fn float_parse bs = Val true.
 Proof. exact load_check_accepts. Qed.
+
+(* [U] C02_depth: parse_element spends one unit of its first fuel per recursion level (the event loops have the
+   second fuel).  If a run returns the tree t, then the same run with ANY recursion fuel >= depth t returns the same
+   tree and state, and with any recursion fuel < depth t it ends in `Fuel`: the recursion depth used is exactly the
+   element nesting depth (ParserDepth.depth: 1 + the maximum over the child elements) of the produced tree.
+   For every table set; no hypothesis. *)
+Theorem C02_depth :
+  forall (strict : bool) (T : tables) (tab_el tab_at tab_en : nametab) (check_fn : N -> list N -> res bool)
+         (float_parse : list N -> option N) (fuel lfuel : nat) (name : N) (ty : etype) (attrs : list (N * cdata))
+         (comment : option (list N)) (path : list N) (pos : list nat) (st : pstate) (t : etree) (st' : pstate),
+  parse_element strict T tab_el tab_at tab_en check_fn float_parse fuel lfuel name ty attrs comment path pos st
+    = Val (Ret t st') ->
+  forall fuel' : nat,
+    (depth t <= fuel' ->
+     parse_element strict T tab_el tab_at tab_en check_fn float_parse fuel' lfuel name ty attrs comment path pos st
+       = Val (Ret t st')) /\
+    (fuel' < depth t ->
+     parse_element strict T tab_el tab_at tab_en check_fn float_parse fuel' lfuel name ty attrs comment path pos st
+       = Fuel).
+Proof. exact parse_element_depth. Qed.
+
+(* [U] and for a whole load: the nesting depth of a loaded tree is at most |bs| + 1 (the recursion fuel of the root call) *)
+Theorem C02_depth_load :
+  forall (strict : bool) (T : tables) (tab_el tab_at tab_en : nametab) (check_fn : N -> list N -> res bool)
+         (float_parse : list N -> option N) (bs : list N) (t : etree) (st : pstate),
+  load strict T tab_el tab_at tab_en check_fn float_parse bs = Val (Ret t st) -> depth t <= S (List.length bs).
+Proof. exact load_depth. Qed.
